@@ -83,8 +83,11 @@ def call_map(c, mesh, extra_layers=False):
     if c.get("vector_layer", False):
         layers.append(mesh.layer("velocity", mode="vec"))
     buf = io.StringIO()
+    import warnings
+
     try:
-        with contextlib.redirect_stdout(buf), np.errstate(all="ignore"):
+        with contextlib.redirect_stdout(buf), np.errstate(all="ignore"), warnings.catch_warnings():
+            warnings.simplefilter("ignore")
             p = osyris.map(*layers, plot=False, **kw)
     except Exception as e:
         return e, None
